@@ -111,6 +111,29 @@ def part1(rows, seed, big):
                        'other': 'answered with a non-ADB error'}[got[0]], r['verdict']), det))
         elif got[0] == 'deliver' and got[1] != (r['cmd'], a0, a1, data):
           bad.append(('round trip changes the message', det))
+        if a0 == 0:
+          # the same frame arriving during the handshake (read_until), a valid CNXN frame behind it: a corrupt
+          # frame is rejected there as well, a valid frame of another command is passed over
+          t3 = usbfake.ChunkTransport()
+          ad3 = am.AdbTransportAdapter(t3)
+          chunks = corrupt(r['c'], r['cmd'], a0, a1, data)
+          if len(chunks[0]) == 24 and struct.unpack('<6I', chunks[0])[3] == 0:
+            chunks = chunks[:1]           # a header announcing no payload is followed by the next frame
+          t3.rx = chunks + [header_of('CNXN', 7, 8, 'ok'), 'ok']
+          try:
+            m = ad3.read_until(['CNXN', 'AUTH'], to.PolledTimeout.from_millis(1000))
+            got3 = ('deliver', (m.command, m.arg0, m.arg1, m.data))
+          except (ue.AdbDataIntegrityError, ue.AdbProtocolError) as e:
+            got3 = ('reject', type(e).__name__)
+          except Exception as e:  # pylint: disable=broad-except
+            got3 = ('other', type(e).__name__)
+          want3 = (r['cmd'], a0, a1, data) if r['cmd'] in ('CNXN', 'AUTH') else ('CNXN', 7, 8, 'ok')
+          if got3[0] != r['verdict']:
+            bad.append(('frame with corruption %s arriving during the handshake is %s, table says %s' % (
+                r['c'], {'deliver': 'passed over / delivered', 'reject': 'rejected',
+                         'other': 'answered with a non-ADB error'}[got3[0]], r['verdict']), det))
+          elif got3[0] == 'deliver' and got3[1] != want3:
+            bad.append(('read_until returns another message than the first expected one', det))
   return n, bad
 
 
